@@ -14,6 +14,9 @@ type nilTest struct {
 	Blk        *ssa.BasicBlock
 	NonNilSucc int // successor index taken when v != nil
 	V          ssa.Value
+	// Chain: the non-nil edge runs straight into a merge with a later error, which is tested
+	// there (`if err == nil { err = next() }; if err != nil { … }`)
+	Chain bool
 }
 
 // nilTestOfCond decodes a branch condition of the form v ==/!= nil
@@ -41,6 +44,83 @@ func nilTestOfCond(cond ssa.Value) (v ssa.Value, nonNilOnTrue bool, ok bool) {
 
 // nilTests lists every branch in fn that tests value v against nil.
 func nilTests(fn *ssa.Function, v ssa.Value) []nilTest {
+	out := directNilTests(fn, v)
+	// the chained form `if err == nil { err = next() }; if err != nil { return … }`: the test
+	// of the merged value stands for the test of v when the merged value can be nil only on
+	// paths on which v is nil
+	if !isErrorType(v.Type()) {
+		return out
+	}
+	for _, bb := range fn.Blocks {
+		for _, ins := range bb.Instrs {
+			p, ok := ins.(*ssa.Phi)
+			if !ok {
+				break
+			}
+			has := false
+			for _, e := range p.Edges {
+				if e == v {
+					has = true
+				}
+			}
+			if !has {
+				continue
+			}
+			stands := true
+			for i, e := range p.Edges {
+				q := bb.Preds[i]
+				switch {
+				case e == v:
+				case func() bool { // the edge is taken only once v is known to be nil
+					for _, t := range out {
+						if edgeDominates(t.Blk, 1-t.NonNilSucc, q) {
+							return true
+						}
+					}
+					return false
+				}():
+				case func() bool { // the incoming value is known not to be nil on this edge
+					for _, t := range directNilTests(fn, e) {
+						if (t.Blk == q && q.Succs[t.NonNilSucc] == bb) || edgeDominates(t.Blk, t.NonNilSucc, q) {
+							return true
+						}
+					}
+					return false
+				}():
+				default:
+					stands = false
+				}
+			}
+			if !stands {
+				continue
+			}
+			pts := directNilTests(fn, p)
+			if len(pts) == 0 {
+				continue
+			}
+			// the chaining test of v itself (non-nil edge straight into the merge) is not where v
+			// is judged
+			var kept, chain []nilTest
+			for _, t := range out {
+				if t.Blk.Succs[t.NonNilSucc] == bb {
+					t.Chain = true
+					chain = append(chain, t)
+					continue
+				}
+				kept = append(kept, t)
+			}
+			out = kept
+			for _, t := range pts {
+				out = append(out, nilTest{Blk: t.Blk, NonNilSucc: t.NonNilSucc, V: v})
+			}
+			// the chaining tests stay available (last) for questions about their nil edge
+			out = append(out, chain...)
+		}
+	}
+	return out
+}
+
+func directNilTests(fn *ssa.Function, v ssa.Value) []nilTest {
 	var out []nilTest
 	for _, bb := range fn.Blocks {
 		iff, ok := bb.Instrs[len(bb.Instrs)-1].(*ssa.If)
@@ -55,7 +135,7 @@ func nilTests(fn *ssa.Function, v ssa.Value) []nilTest {
 		if nnTrue {
 			s = 0
 		}
-		out = append(out, nilTest{bb, s, v})
+		out = append(out, nilTest{Blk: bb, NonNilSucc: s, V: v})
 	}
 	return out
 }
@@ -311,8 +391,19 @@ func (b *Body) successDominates(c ssa.CallInstruction, target ssa.Instruction) (
 		return false, "call has no error result in use"
 	}
 	for _, e := range errs {
-		for _, t := range errChecks(e) {
+		all := errChecks(e)
+		for _, t := range all {
 			if !edgeDominates(t.Blk, 1-t.NonNilSucc, target.Block()) {
+				continue
+			}
+			if t.Chain {
+				// `if err == nil { … target … }; if err != nil { return … }`: the failure is
+				// rejected at the test of the merged value
+				for _, t2 := range all {
+					if !t2.Chain && b.rejects(t2.Blk.Succs[t2.NonNilSucc]) {
+						return true, "error tested at " + b.posOf(t.Blk.Instrs[len(t.Blk.Instrs)-1]) + " (failure rejected at " + b.posOf(t2.Blk.Instrs[len(t2.Blk.Instrs)-1]) + ")"
+					}
+				}
 				continue
 			}
 			if !b.rejects(t.Blk.Succs[t.NonNilSucc]) {
